@@ -27,6 +27,14 @@ CHECKS = {
          "The C02 mutant stream replayed on pairs of tokens (decodable / undecodable payload) with an instrumented payload decoder and validator: for every failing token neither runs, the error is never PayloadError and does not differ between the pair members; controls pin the decode-then-validate order.",
          "Error-kind equality is demanded only when the nonce and tag/signature windows of both pair members are byte-identical (a signature window that swallowed message bytes may legitimately parse differently). The accessor clause is decided by the generated compile probes of C18.",
          "fault-injection enumeration with invocation-recording Payload/Validate, metamorphic pair oracle", "DESIGN.md §5 C12"),
+ "C03": ("pv-harness", "exploration",
+         "Differential generated-input search against an independent reference model of PASETO v1-v4 (validated on every upstream vector at start-up): library token == model token byte for byte; model-built tokens (chosen nonces incl. counter-wrap blocks, independent high-S / random-k / PSS signers) unseal identically; sibling back ends accept each other. Counter wrap of derived v3 nonces is forced through the paseto_verif hook.",
+         "Trusts the reference model (own PAE/base64/HKDF/AES-CTR composition over aws-lc-rs, libsodium and the bare aes block cipher) and the independent verifiers/signers of aws-lc-rs and RustCrypto.",
+         "property-based differential testing (proptest) against a reference model + independent signers/verifiers", "DESIGN.md §5 C03, §3.3"),
+ "C07": ("pv-harness", "exploration",
+         "Differential generated-input search for PIE / PBKW / PKE: library blob == model blob recomputed from the embedded randomness (PKE recomputed with the recipient secret, or with scripted ephemeral randomness); model-built blobs with chosen nonces (incl. 0xff..ff counter blocks, forced derived IVs) unwrap to the same key on the back end and its sibling.",
+         "Same trusted base as C03; Argon2id parallelism 1 only in model-checked cases.",
+         "property-based differential testing (proptest) against a reference model, RNG-as-input, sibling differential", "DESIGN.md §5 C07, §3.3"),
 }
 
 NOT_APPLICABLE = []  # filled while properties are still being built
